@@ -503,9 +503,10 @@ def check_columns(E, dm, m, active):
 ALPHABET = {"i": [0, 1, 2, 3], "s": ["x", "y", "z", ""], "o": [1, 2, "x", "y"]}
 
 
-def probe_values(E, dm, m, c, active):
-    """Values an equality query on column c is asked for: every value present (as a python scalar, as the
-    object read back from the table, ints also as floats), values that are absent, and missing values."""
+def probe_values(E, raw, m, c, active):
+    """Values an equality query on column c is asked for: every value present (as a python scalar, ints also in
+    their float spelling, numpy scalars as read back from the table), values that are absent, and missing values.
+    -> list of (value, deep)"""
     out = []
     seen = set()
     present = []
@@ -513,41 +514,51 @@ def probe_values(E, dm, m, c, active):
         if v is not None and repr(v) not in seen:
             seen.add(repr(v))
             present.append(v)
-    for v in present:
-        out.append(v)
-        if isinstance(v, int):
-            out.append(float(v))
+    n = m.n()
+    stride = max(1, (len(present) + 4) // 5)
+    for k, v in enumerate(present):
+        out.append((v, (k + n) % stride == 0))
+        if isinstance(v, int) and (k + n) % 2 == 0:
+            out.append((float(v), False))
     i = m.ci(c)
-    # as read back from the table itself (numpy scalars for all-numeric tables)
-    # (read through get_data(): get_rows() would refresh the caches this query is supposed to find valid)
-    rows = dm.get_data().values if m.n() else []
     done = set()
-    for p in range(m.n()):
-        raw = rows[p][i]
-        if not isinstance(raw, E.np.generic) or canon(raw) is None:
+    for p in range(n):
+        x = raw[p][i]
+        if not isinstance(x, E.np.generic) or canon(x) is None:
             continue            # python scalars are asked above
-        key = repr(canon(raw))
+        key = repr(canon(x))
         if key in done:
             continue
         done.add(key)
-        if canon(raw) == 0 and not isinstance(raw, float) and "np-zero" in active:
+        if canon(x) == 0 and not isinstance(x, float) and "np-zero" in active:
             active["np-zero"] += 1
             continue
-        out.append(raw)
+        out.append((x, False))
+    k = 0
     for v in ALPHABET.get(m.kinds.get(c), [7, "q"]):
         if repr(v) not in seen:
-            out.append(v)
-    out.extend([None, float("nan"), ""])
+            out.append((v, k == 0))
+            k += 1
+    out.extend([(None, True), (float("nan"), False), ("", False)])
     return out
 
 
-def check_index(E, dm, m, active):
-    """Queries by equality on an indexed column."""
+def check_index(E, dm, m, active, deep=True):
+    """Queries by equality on an indexed column.  deep: also the table / first-row forms of the query (for a
+    rotating sample of at most ~5 present values per column, one absent value and None)."""
     n = m.n()
     cols = list(m.cols)
+    # (read through get_data(): get_rows() would refresh the caches this query is supposed to find valid)
+    raw = dm.get_data().values if n else []
     for c in cols:
-        for v in probe_values(E, dm, m, c, active):
-            exp = m.positions(c, v)
+        # one scan of the model column: value -> positions
+        scan = {}
+        for p, x in enumerate(m.column(c)):
+            if not isna_spec(x):
+                scan.setdefault((isinstance(x, str), x), []).append(p)
+        for v, dp in probe_values(E, raw, m, c, active):
+            cv = canon(v)
+            exp = [] if isna_spec(cv) else scan.get((isinstance(cv, str), cv), [])
             got = call("query_index_column_value_indices", dm.query_index_column_value_indices, c, v)
             got = [int(x) for x in got]
             if got != exp:
@@ -562,6 +573,8 @@ def check_index(E, dm, m, active):
                                 "query_index_column_value_indices(%r, %r of type %s) = [] but rows %s hold 0 (python 0 matches)" % (c, v, type(v).__name__, exp))
                 raise Found("index", ("index_query", kind),
                             "query_index_column_value_indices(%r, %r) = %s on %d rows, scan says %s" % (c, v, got, n, exp))
+            if not (deep and dp):
+                continue
             sub = call("query_index_column_value", dm.query_index_column_value, c, v)
             if not exp:
                 if not (isinstance(sub, list) and sub == []):
@@ -641,6 +654,16 @@ def check_slow_query(E, dm, m):
         el = list(range(len(exp))) if reset else [m.rows[p][0] for p in exp]
         if gl != el:
             raise Found("other", ("slow_query", "labels-differ"), "slow_query(reset_index=%r) labels %s, expected %s" % (reset, gl, el))
+    ci = m.ci(c)
+    cell = list(call("slow_query(mask,col)", dm.slow_query, mask, c))
+    if not rows_eq([cell], [[m.rows[p][1][ci] for p in exp]]):
+        raise Found("other", ("slow_query", "column-values"), "slow_query(%r == %r, %r) = %s, scan says rows %s" % (c, v, c, _short(cell), exp))
+    if exp:
+        labs = [m.rows[p][0] for p in exp]
+        sub = call("slow_query(labels)", dm.slow_query, list(labs), reset_index=False)
+        gr = [list(r) for r in call("get_rows(sub)", sub.get_rows)]
+        if not rows_eq(gr, [m.rows[p][1] for p in exp]) or [r.get_index() for r in sub] != labs:
+            raise Found("other", ("slow_query", "by-labels"), "slow_query(%r) rows %s, scan says %s" % (labs, _short(gr), exp))
     first = call("slow_query_first", dm.slow_query_first, mask)
     if not exp:
         if first is not None:
@@ -668,13 +691,16 @@ def check_blocks(E, dm, m, active):
             got = call("search_block_start_end_indics", dm.search_block_start_end_indics, arg)
             if [int(x) for x in got] != e:
                 raise Found("index", ("block", "search", "positions-differ"), "search_block_start_end_indics(%r) = %s, scan says %s" % (arg, list(got), e))
+            if isinstance(arg, float) and (len(e) != 2 or (e[0] + n) % 3):
+                continue
+            resets = (False, True) if (e and (e[0] + n) % 2 == 0) else (False,)
             if len(e) == 2:
-                for reset in (False, True):
+                for reset in resets:
                     blk = call("read_block", dm.read_block, arg, reset_index=reset)
                     exp_rows = m.rows[e[0] + 1:e[1]]
                     _cmp_table(E, blk, exp_rows, m.cols, reset, ("block", "read_block"), "read_block(%r)" % (arg,))
             if len(e) <= 2:
-                for reset in (False, True):
+                for reset in resets:
                     blk = call("read_block_with_block_stmts", dm.read_block_with_block_stmts, arg, reset_index=reset)
                     if len(e) < 2:
                         if not (isinstance(blk, list) and blk == []):
@@ -721,8 +747,10 @@ def _ids(stmts):
     return [canon(s.stmt_id) for s in stmts]
 
 
-def check_viewer_view(E, v, m, rng, blocks, tag):
-    """Compare one viewer (whose visible range is rng=(start,end), exclusive) with scans of the model rows."""
+def check_viewer_view(E, v, m, rng, blocks, tag, full=True):
+    """Compare one viewer (whose visible range is rng=(start,end), exclusive) with scans of the model rows.
+    full=False: the queries whose answer depends on the visible range only through `contains_index` are asked for a
+    sample of their arguments (the root view asks them all)."""
     si, oi = m.ci("stmt_id"), m.ci("operation")
     rows = m.values()
     n = len(rows)
@@ -753,7 +781,10 @@ def check_viewer_view(E, v, m, rng, blocks, tag):
     first = {}
     for p in range(n):
         first.setdefault(rows[p][si], p)
-    for sid in list(first) + [999, None]:
+    sids = list(first)
+    if not full:
+        sids = sids[(s + 1) % 3::3] + [rows[p][si] for p in vis[:2]]
+    for sid in sids + [999, None]:
         p = first.get(sid)
         exp = p if (p is not None and s < p < e) else None
         x = call("viewer.get_stmt_by_id", v.get_stmt_by_id, sid)
@@ -764,7 +795,7 @@ def check_viewer_view(E, v, m, rng, blocks, tag):
         if x is not None and not call("viewer.contains", v.__contains__, x):
             raise Found("other", S + ("contains",), "stmt %r returned by the viewer is 'not in' it" % (sid,))
     # by position
-    for p in range(-2, n + 2):
+    for p in (range(-2, n + 2) if full else sorted({s - 1, s, s + 1, e - 1, e, e + 1, (s + e) // 2})):
         x = call("viewer.get_stmt_by_pos", v.get_stmt_by_pos, p)
         exp = p if s < p < e else None
         if (x is None) != (exp is None) or (x is not None and canon(x.stmt_id) != rows[p][si]):
@@ -781,13 +812,13 @@ def check_viewer_view(E, v, m, rng, blocks, tag):
         exp = [rows[p][si] for p in vis if rows[p][oi] == op]
         if _ids(got) != exp or any(x.operation != op for x in got):
             raise Found("other", S + ("query_operation",), "viewer %s query_operation(%r) = %s, scan says %s" % (rng, op, _ids(got), exp))
-    for f in m.cols:
+    for f in (m.cols if full else [c for c in ("name", "parent_stmt_id") if c in m.cols][:1 + (s % 2)]):
         fi = m.ci(f)
         vals = []
         for p in range(n):
             if rows[p][fi] is not None and rows[p][fi] not in vals:
                 vals.append(rows[p][fi])
-        for val in vals[:4] + ["no_such_value"]:
+        for val in (vals[:4] + ["no_such_value"] if full else vals[s % 2:s % 2 + 2]):
             got = call("viewer.query_field", v.query_field, f, val)
             exp = [(p, rows[p][si]) for p in vis if rows[p][fi] is not None and veq(rows[p][fi], val)]
             if _ids(got) != [x[1] for x in exp]:
@@ -816,6 +847,8 @@ def check_viewer_view(E, v, m, rng, blocks, tag):
 
 
 def check_viewer(E, dm, m):
+    if any(v is None for v in m.column("stmt_id")) or any(v is None for v in m.column("operation")):
+        return "skipped-missing-id-or-operation"      # a GIR row always has an id and an operation
     ok = m.wellformed()
     try:
         root = E.GIRBlockViewer(dm)
@@ -831,14 +864,14 @@ def check_viewer(E, dm, m):
     blocks = m.blocks()
     check_viewer_view(E, root, m, (-1, n), blocks, "root")
     # a copy-constructed viewer sees the same
-    check_viewer_view(E, E.GIRBlockViewer(root), m, (-1, n), blocks, "copy")
+    check_viewer_view(E, E.GIRBlockViewer(root), m, (-1, n), blocks, "copy", full=False)
     subs = {}
     for b, br in blocks.items():
         sub = root.read_block(b)
         if sub is None:
             raise Found("other", ("viewer", "root", "read_block", "visibility"), "root.read_block(%r) is None" % (b,))
         subs[b] = sub
-        check_viewer_view(E, sub, m, br, blocks, "block")
+        check_viewer_view(E, sub, m, br, blocks, "block", full=False)
     # append_other: two disjoint blocks (in table order) concatenated = scan of both interiors
     bl = sorted(blocks, key=lambda b: blocks[b][0])
     done = 0
@@ -847,7 +880,7 @@ def check_viewer(E, dm, m):
             a, b = blocks[bl[i]], blocks[bl[j]]
             if i == j or not (a[1] < b[0] or b[1] < a[0]):
                 continue
-            if done >= 2:
+            if done >= 1 + (n % 2):
                 break
             done += 1
             left = root.read_block(bl[i])
@@ -859,9 +892,9 @@ def check_viewer(E, dm, m):
                 raise Found("other", ("viewer", "append_other", "return"), "append_other does not return self")
             check_viewer_view(E, left, m2, (-1, len(exp_rows)), m2.blocks(), "appended")
             # the operand and the root are unchanged
-            check_viewer_view(E, right, m, b, blocks, "append-operand")
+            check_viewer_view(E, right, m, b, blocks, "append-operand", full=False)
     if done:
-        check_viewer_view(E, root, m, (-1, n), blocks, "root-after-append")
+        check_viewer_view(E, root, m, (-1, n), blocks, "root-after-append", full=False)
     e = E.GIRBlockViewer()
     if len(e) != 0 or list(e) != [] or e.read_block(1) is not None or e.get_stmt_by_id(1) is not None:
         raise Found("other", ("viewer", "empty"), "empty GIRBlockViewer is not empty")
@@ -873,7 +906,7 @@ def check_viewer(E, dm, m):
 
 def compare_all(E, dm, m, order, active, info, light=False):
     """Raises Found / Crash.  order 'I' = indexed queries first, 'R' = row queries first."""
-    fams = [("index", lambda: check_index(E, dm, m, active)), ("rows", lambda: check_rows(E, dm, m))]
+    fams = [("index", lambda: check_index(E, dm, m, active, deep=not light)), ("rows", lambda: check_rows(E, dm, m))]
     if order == "R":
         fams.reverse()
     for _, f in fams:
@@ -887,7 +920,7 @@ def compare_all(E, dm, m, order, active, info, light=False):
         check_blocks(E, dm, m, active)
         info["viewer:" + check_viewer(E, dm, m)] += 1
     # and once more, now that every cache is warm
-    check_index(E, dm, m, active)
+    check_index(E, dm, m, active, deep=False)
 
 
 def opclass(op):
